@@ -26,16 +26,24 @@ META = {
     'level_text': 'Theorems for every program of state/cleanup functions (arbitrary functions of the history), every '
                   'sequence of cycle/start/stop and every placement of concurrent requests at the reads of next_task: '
                   'cycle_calls_bounded (measure and positional), cycle_never_raises, init_flag_exact, cleanup_exactly_once, '
-                  'cleanup_not_interrupted, stop_makes_inactive (incl.: a stop request to the module that finds a state '
-                  'function active has posted its stop when it returns), last_start_wins (incl.: a start request to the '
-                  'module has posted its start when it returns) are fully proved from one coupling invariant between the '
-                  'machine and the observer; busy_until_finished is fully proved from a second invariant (engaged => busy '
-                  'status, not engaged => status = declared final/stopped status) for requests that are atomic with respect '
-                  'to the transitions of the machine - which the repaired code guarantees by one lock (fix 5cfb218) - and '
-                  'refuted for a start_machine pre-empted by a transition (the code before the repair).  The model is tied '
-                  'to lib/statemachine.py and states.py by an exhaustive + random correspondence run on the real classes, '
-                  'and the Lean monitors judge every implementation history, also with start_machine/stop_machine '
-                  'pre-empted between any two of their lines.',
+                  'cleanup_not_interrupted (incl.: a state handed over by a state or cleanup function - on every path: '
+                  'chaining, stop, restart, exception, non-callable, too many chained states - is entered next, and the '
+                  'machine changes its state only when called for; third invariant, Lemmas/StateMachineFollow), '
+                  'stop_makes_inactive (incl.: a stop request to the module that finds a state function active has posted '
+                  'its stop when it returns), last_start_wins (incl.: a start request to the module has posted its start '
+                  'when it returns) are fully proved from coupling invariants between the machine and the observer; '
+                  'busy_until_finished is fully proved WITHOUT assumption about the status codes the author declares '
+                  '(invariant: engaged and no status declared for this engagement that is not busy => busy status; not '
+                  'engaged => status = declared final/stopped status; what earlier engagements declared never counts), '
+                  'busy_until_finished_strict is its corollary for modules declaring busy codes only; both for requests '
+                  'that are atomic with respect to the transitions of the machine - which the repaired code guarantees by '
+                  'one lock (fix d233056) - and refuted for a start_machine pre-empted by a transition (the code before the '
+                  'repair).  status_independent_of_history: get_status through the statusMap cache returns what the '
+                  'lookup without cache returns, after any sequence of earlier lookups.  The model is tied to '
+                  'lib/statemachine.py and states.py by an exhaustive + catalogue (interruptions x cleanups) + multi-run + '
+                  'random correspondence run on the real classes, get_status sequences on one instance (also of a derived '
+                  'class: MRO inheritance) and Drivable.isBusy over all codes; the Lean monitors judge every implementation '
+                  'history, also with start_machine/stop_machine pre-empted between any two of their lines.',
     'level_note': 'Trusted: Lean kernel + axioms propext/Classical.choice/Quot.sound; that the lock makes '
                   'start_machine/stop_machine/final_status atomic with respect to StateMachine._new_state is not a theorem '
                   'but searched (line-level pre-emption of the request thread, the cycle thread waiting for the lock; '
@@ -49,18 +57,22 @@ META = {
     'modelled_not_verified': [
         'time (now, delta), log texts, fast-poll switching, poller triggering',
         'Parameter/announceUpdate machinery behind read_status (the value returned by read_status is observed)',
+        'HasStates.on_cleanup / on_error / on_restart / on_stop (default cleanup): scripted in the driver, tied by correspondence only',
     ],
     'assumptions': ['all_status_changes = True (default)',
-                    'status codes attached to state functions and status overrides of start_machine are busy codes, '
-                    'BUSY < ERROR (hypotheses BusyRules / BusyProg / BusyOps of busy_until_finished)'],
+                    'BUSY < ERROR (hypothesis of busy_until_finished; a fact of the generated constants)',
+                    'where the author declares a status that is not busy (status= override of the start request in force, '
+                    '@status_code of its start state, of the state active when it was issued, or of a state entered since) '
+                    'the busy clause demands nothing for that engagement (Obs.lax)'],
 }
 
-NSTATES = 4
+NSTATES = 5
 NCLEAN = 2
 DEFAULT_CLEAN = 2    # mixin only: no cleanup given to start_machine -> HasStates.on_cleanup (on_error / on_restart / on_stop)
 IDLE0 = [100, '']
-# status attached to the state functions of the module (st_0 and st_3 have none)
-HS_STATUS = {1: [340, 'state 1'], 2: [390, 'st 2']}
+# status attached to the state functions of the module (st_0 and st_3 have none; st_4 declares a status that is NOT busy:
+# WARN 'waiting' - the author's choice, e.g. a module waiting for a go)
+HS_STATUS = {1: [340, 'state 1'], 2: [390, 'st 2'], 4: [200, 'waiting']}
 HS_LABELS = {i: 'st %d' % i for i in range(NSTATES)}
 
 CUR = None          # the running case (one at a time)
@@ -527,8 +539,17 @@ def get_classes():
     class Started(RuntimeError):
         pass
 
-    def create_module():
-        obj = Mod('obj', Log(), {'description': ''}, ServerStub())
+    # a module class derived from it that overrides state functions WITHOUT attaching a status: the status is inherited
+    # from the overridden method (get_status walks the MRO)
+    def mk_override(i):
+        def f(self, sm):
+            return CUR.user_function('state', i, sm)
+        f.__name__ = 'st_%d' % i
+        return f
+    Sub = type('Sub', (Mod,), {'st_%d' % i: mk_override(i) for i in (0, 1, 4)})
+
+    def create_module(cls=Mod):
+        obj = cls('obj', Log(), {'description': ''}, ServerStub())
         obj.initModule()
         try:
             def started():
@@ -562,8 +583,8 @@ def get_classes():
         c = CUR
         c.events.append(['enter', sid_of(newstate)])
 
-    _classes.update(TracedSM=TracedSM, Log=Log, Mod=Mod, create_module=create_module, raw_hook=raw_hook,
-                    fstates=fstates, module=None)
+    _classes.update(TracedSM=TracedSM, Log=Log, Mod=Mod, Sub=Sub, create_module=create_module, raw_hook=raw_hook,
+                    fstates=fstates, module=None, Status=Status)
     return _classes
 
 
@@ -666,7 +687,14 @@ class NeedChoice(BaseException):
         self.n = n
 
 
-def exhaustive(hs, depth, maxloops=2):
+# variant of the alphabet for the module: start A is the state declared WARN (not busy), chained states go on to the
+# undecorated st_0, the cleanup sequence to st_2 (busy) - the engagements in which the author declared a non-busy status
+EX_OPS_WARN = [EX_OPS[0], ['req', ['start', 4, 0, [[0, 1]], None]],
+               ['req', ['start', 3, DEFAULT_CLEAN, [[0, 2], [1, 5]], [150, 'x']]], EX_OPS[3]]
+EX_STATE_WARN = [{'posts': [], 'fin': None, 'ret': ['next', 0]}] + EX_STATE[1:]
+
+
+def exhaustive(hs, depth, maxloops=2, warn=False):
     """lazy enumeration of all executions with at most `depth` choices (ops and behaviours of calls)"""
     stack = [[]]
     while stack:
@@ -683,10 +711,10 @@ def exhaustive(hs, depth, maxloops=2):
             return None
 
         def choose(kind):
-            return pick(EX_STATE if kind == 'state' else EX_CLEAN)
+            return pick((EX_STATE_WARN if warn else EX_STATE) if kind == 'state' else EX_CLEAN)
 
         def next_op():
-            return pick(EX_OPS_HS if hs else EX_OPS)
+            return pick(EX_OPS_WARN if warn else EX_OPS_HS if hs else EX_OPS)
         case = {'hasStates': hs, 'maxloops': maxloops, 'script': [], 'ops': [], 'env': []}
         try:
             events, errors, script, ops = impl_run(case, choose=choose, next_op=next_op)
@@ -707,7 +735,7 @@ def gen_status(rng, busy=True):
 def gen_req(rng, hs):
     if rng.random() < 0.65:
         kw = [[k, rng.randint(-3, 3)] for k in sorted(rng.sample(range(4), rng.choice([0, 1, 1, 2, 3])))]
-        ovr = gen_status(rng) if hs and rng.random() < 0.25 else None
+        ovr = gen_status(rng, busy=rng.random() < 0.8) if hs and rng.random() < 0.25 else None
         return ['start', rng.randrange(NSTATES), rng.choice([None, 0, 0, 1, DEFAULT_CLEAN] if hs else [None, 0, 0, 1]), kw, ovr]
     return ['stop', [100, rng.choice(['stopped', 'halt'])] if rng.random() < 0.8 else [150, 'parked']]
 
@@ -761,12 +789,130 @@ def gen_random(rng, hs, big):
             'threaded': rng.random() < 0.25}
 
 
+def _oc(ret, posts=(), fin=None):
+    return {'posts': list(posts), 'fin': fin, 'ret': ret}
+
+
+def gen_cleanup_outcomes(rng, kind=None):
+    """what a cleanup function does, as a list of scripted outcomes: the cleanup function itself and - when it hands over a
+    state - the calls of the cleanup SEQUENCE that follows (one or more states, with retries, up to its end)"""
+    kind = kind or rng.choice(['none', 'seq', 'seq', 'seq2', 'raise', 'finish', 'retry'])
+    if kind == 'none':
+        return [_oc('bad')]
+    if kind in ('raise', 'finish', 'retry'):
+        return [_oc(kind)]
+    a = rng.randrange(NSTATES)
+    out = [_oc(['next', a])] + [_oc('retry')] * rng.choice([0, 1, 1, 2])
+    if kind == 'seq2':
+        b = rng.randrange(NSTATES)
+        out += [_oc(['next', b])] + [_oc('retry')] * rng.choice([0, 1])
+    end = rng.choice(['finish', 'finish', 'finfin', 'bad', 'raise'])
+    out.append(_oc('finish', fin=[rng.choice([100, 200]), 'parked']) if end == 'finfin' else _oc(end))
+    return out
+
+
+INTERRUPTIONS = ['stop', 'restart', 'raise', 'bad', 'chain', 'error-in-sequence']
+CLEANUP_KINDS = ['none', 'seq', 'seq2', 'raise', 'finish', 'retry']
+
+
+def cleanup_catalogue(rng):
+    """every way a run can be interrupted (stop, restart, exception, non-callable return value, too many chained states,
+    an error inside a cleanup sequence already running) x every kind of cleanup (none needed, a sequence of one or two
+    further states, raising, Finish, Retry) x bare machine / module x loop limits"""
+    for hs in (False, True):
+        for maxloops in (1, 2, 3, 10):
+            for how in INTERRUPTIONS:
+                for ck in CLEANUP_KINDS:
+                    s0 = rng.randrange(NSTATES)
+                    start = ['req', ['start', s0, rng.choice([0, 1]), [[0, 1]], None]]
+                    ops = [start, ['cycle']]
+                    script = [_oc('retry')]
+                    cl = gen_cleanup_outcomes(rng, ck)
+                    if how == 'stop':
+                        ops += [['req', ['stop', [100, 'stopped']]]]
+                    elif how == 'restart':
+                        ops += [['req', ['start', rng.randrange(NSTATES), None, [[1, 2]], None]]]
+                    elif how in ('raise', 'bad'):
+                        script += [_oc(how)]
+                    elif how == 'chain':
+                        script += [_oc(['next', rng.randrange(NSTATES)]) for _ in range(maxloops)]
+                    else:   # a stop starts the cleanup sequence, then a state of that sequence fails
+                        ops += [['req', ['stop', [100, 'stopped']]]]
+                        cl = [_oc(['next', rng.randrange(NSTATES)]), _oc('retry'), _oc(rng.choice(['raise', 'bad']))]
+                    script += cl
+                    ops += [['cycle']] * (3 + len(cl))
+                    yield {'hasStates': hs, 'maxloops': maxloops, 'script': script, 'ops': ops, 'env': []}
+
+
+def gen_runs(rng, hs):
+    """several runs, one after the other, on ONE machine / module instance: each run starts at some state (with or without
+    attached status, busy or not, with or without status override), walks through a few states and ends by Finish, error,
+    too many chained states, or is stopped / restarted on the way; the cleanup may be a sequence of states.  What a run
+    leaves behind (attributes, caches, reasons, idle status) meets the next run."""
+    ops, script = [], []
+    maxloops = rng.choice([2, 3, 10])
+    carry = []          # outcomes of the cleanup of a run that is being restarted: they come first in the next run
+    for _ in range(rng.choice([2, 3, 3, 4])):
+        s = rng.randrange(NSTATES)
+        cl = rng.choice([None, 0, 1, DEFAULT_CLEAN] if hs else [None, 0, 1])
+        ovr = None
+        if hs and rng.random() < 0.2:
+            ovr = gen_status(rng, busy=rng.random() < 0.5)
+        kw = [[k, rng.randint(-3, 3)] for k in sorted(rng.sample(range(4), rng.choice([0, 1, 2])))]
+        ops.append(['req', ['start', s, cl, kw, ovr]])
+        script += carry
+        ops += [['cycle']] * (1 + sum(1 for o in carry if o['ret'] == 'retry'))
+        carry = []
+        scripted_cl = cl in (0, 1)
+        nwalk = rng.choice([1, 2, 2, 3])
+        for i in range(nwalk):
+            n = rng.choice([0, 1, 1, 2])
+            script += [_oc('retry')] * n
+            ops += [['cycle']] * n
+            if i < nwalk - 1:
+                script.append(_oc(['next', rng.randrange(NSTATES)]))
+        end = rng.choice(['finish', 'finish', 'stop', 'stop', 'stop', 'restart', 'bad', 'raise', 'chain'])
+        if end in ('stop', 'restart'):
+            script.append(_oc('retry'))
+            ops.append(['cycle'])
+            clo = gen_cleanup_outcomes(rng) if scripted_cl else []
+            if end == 'stop':
+                ops.append(['req', ['stop', [100, 'stopped'] if rng.random() < 0.8 else [150, 'parked']]])
+                script += clo
+                ops += [['cycle']] * (1 + sum(1 for o in clo if o['ret'] == 'retry'))
+            else:
+                carry = clo
+        else:
+            if end == 'finish':
+                script.append(_oc('finish', fin=rng.choice([None, [100, 'done'], [200, 'done']])))
+            elif end == 'chain':
+                script += [_oc(['next', rng.randrange(NSTATES)]) for _ in range(maxloops)]
+            else:
+                script.append(_oc(end))
+            clo = gen_cleanup_outcomes(rng) if scripted_cl and end != 'finish' else []
+            script += clo
+            ops += [['cycle']] * (1 + sum(1 for o in clo if o['ret'] == 'retry'))
+        if rng.random() < 0.3:
+            ops.append(['cycle'])
+    ops += [['cycle']] * 2
+    env = []
+    if rng.random() < 0.25:
+        for sl in sorted(rng.sample(range(60), rng.choice([1, 2]))):
+            env.append([sl, [gen_req(rng, hs)]])
+    return {'hasStates': hs, 'maxloops': maxloops, 'script': script, 'ops': ops, 'env': env, 'threaded': rng.random() < 0.2}
+
+
 def gen_split(rng):
     """judge-only: a module-level request preempted between two of its lines by the cycle thread"""
     case = gen_random(rng, True, False)
     case['threaded'] = False
     b = rng.randrange(0, 12)
-    case['split'] = [b, rng.randint(1, 9), b + rng.choice([1, 1, 2, 3, 5]), gen_req(rng, True)]
+    e = b + rng.choice([1, 1, 2, 3, 5])
+    case['split'] = [b, rng.randint(1, 9), e, gen_req(rng, True)]
+    if rng.random() < 0.3:
+        # a further request (third thread) while the pre-empted one is in flight
+        sl = rng.randrange(b, e + 1)
+        case['env'] = sorted([x for x in case['env'] if x[0] != sl] + [[sl, [gen_req(rng, True)]]])
     if not any(op[0] == 'cycle' for op in case['ops']):
         case['ops'].append(['cycle'])
     return case
@@ -776,6 +922,7 @@ def gen_split(rng):
 def features(events):
     kinds = set()
     ncl = 0
+    prev = None
     for e in events:
         if e[0] == 'int':
             kinds.add('int:' + e[1])
@@ -785,6 +932,16 @@ def features(events):
             kinds.add('pickup')
         elif e[0] == 'ret' and e[1] == 'finish':
             kinds.add('finish')
+        if e[0] == 'ret' and prev is not None and prev[0] == 'cleanup' and isinstance(e[1], list):
+            kinds.add('cleanup-sequence')
+        if e[0] == 'enter' and e[1] is not None and HS_STATUS.get(e[1], [300])[0] < 300:
+            kinds.add('entered-state-declared-not-busy')
+        if e[0] == 'post' and e[1][0] == 'start' and e[1][4] is not None and not 300 <= e[1][4][0] < 400:
+            kinds.add('override-not-busy')
+        if e[0] in ('call', 'cleanup', 'ret'):
+            prev = e
+    if sum(1 for e in events if e[0] == 'pickup') > 1:
+        kinds.add('several-runs')
     if ncl:
         kinds.add('cleanup')
     return kinds
@@ -873,6 +1030,66 @@ def report_violation(ctx, res, case, events, errors, bad):
                            'detail': {'violations': bad[:5], 'history': events[:200]}})
 
 
+# ---- glue around the modelled core: get_status with its cache, the busy predicate -----------------------------
+def rules_req(k, **kw):
+    return dict(setup_of({'maxloops': 2, 'hasStates': True}), k=k, **kw)
+
+
+def canon_status(v):
+    return None if v is None else [int(v[0]), str(v[1])]
+
+
+def check_glue(ctx, res):
+    K = get_classes()
+    rng = ctx.rng
+    # -- Drivable.isBusy against the model's predicate: every code, with and without argument
+    mod = K['create_module']()
+    codes = list(range(0, 520))
+    impl = [bool(mod.isBusy((c, 'x'))) for c in codes]
+    noarg = []
+    for member in K['Status'].members:
+        mod.status = (member, 'x')
+        noarg.append([int(member), bool(mod.isBusy())])
+    a = ctx.driver.batch([rules_req('isbusy', codes=codes), rules_req('isbusy', codes=[c for c, _ in noarg]),
+                          rules_req('judge_isbusy', table=[[c, b] for c, b in zip(codes, impl)] + noarg)])
+    res.evaluations += 2
+    res.traces += 1
+    res.count('glue.isbusy')
+    if a[2]['bad']:
+        res.violations.append({'sig': 'C14:hs:busy_predicate',
+                               'what': f'busy_until_finished:busy-predicate: Drivable.isBusy classifies the status codes '
+                                       f'{a[2]["bad"][:6]} differently from BUSY <= code < ERROR',
+                               'case': {'isbusy': a[2]['bad'][:6]}})
+    if ctx.model_ok:
+        if a[0]['busy'] != impl:
+            k = next(i for i, (x, y) in enumerate(zip(a[0]['busy'], impl)) if x != y)
+            res.disagreements.append({'case': {'isBusy': codes[k]}, 'model': a[0]['busy'][k], 'impl': impl[k]})
+        if a[1]['busy'] != [b for _, b in noarg]:
+            res.disagreements.append({'case': {'isBusy()': 'status of the module'}, 'model': a[1]['busy'], 'impl': noarg})
+    # -- sequences of get_status lookups on ONE module instance (fresh cache), Mod and the derived class
+    dflts = [None, None, 100, 200, 300, 300, 340, 390, 400]
+    mods = {'Mod': mod, 'Sub': K['create_module'](K['Sub'])}
+    cases, impls = [], []
+    for i in range(ctx.budget(200, 2000)):
+        cls = 'Sub' if i % 3 == 2 else 'Mod'
+        m = mods[cls]
+        m.statusMap = {}
+        qs = [[rng.randrange(NSTATES), rng.choice(dflts)] for _ in range(rng.choice([1, 2, 4, 8, 12]))]
+        out = [canon_status(m.get_status(getattr(m, 'st_%d' % s), d)) for s, d in qs]
+        cache = sorted([int(k.split('_')[1]), canon_status(v)] for k, v in m.statusMap.items())
+        cases.append({'class': cls, 'lookups': qs})
+        impls.append({'results': out, 'cache': cache})
+        m.statusMap = {}
+    answers = ctx.driver.batch([rules_req('getstatus', lookups=c['lookups']) for c in cases])
+    for c, im, a in zip(cases, impls, answers):
+        if 'driver_error' in a:
+            raise RuntimeError(f'driver error: {a}')
+        res.evaluations += 1
+        res.count('glue.getstatus.' + c['class'])
+        if ctx.model_ok and (a['results'] != im['results'] or a['cache'] != im['cache']):
+            res.disagreements.append({'case': c, 'model': a, 'impl': im})
+
+
 # ---- entry points -----------------------------------------------------------------------------------------
 def run(ctx):
     res = Result()
@@ -881,6 +1098,12 @@ def run(ctx):
                 'behaviours of each call from {next, retry, finish, non-callable, raise} resp. {None, state, raise}), maxloops=2, '
                 'bare machine and HasStates module; random: op sequences up to depth 40 with requests from inside the '
                 'functions, final_status, requests injected at the reads of next_task (same thread or a real second thread); '
+                'catalogue: every interruption (stop, restart, exception, non-callable, too many chained states, error '
+                'inside a cleanup sequence) x every kind of cleanup (none, sequence of one or two states, raise, Finish, Retry) '
+                'x bare/module x maxloops 1,2,3,10; runs: 2-4 runs one after the other on ONE instance (start states with / '
+                'without attached status, busy or not, overrides busy or not; ended by Finish, error, chain limit, stop, restart; '
+                'cleanup sequences); glue: get_status lookup sequences on one instance (Mod and a derived class), isBusy for '
+                'all codes; '
                 'preempted: start_machine/stop_machine stopped between two of their lines (judge only). '
                 'non-trivial = a cleanup function ran and (a start was taken or a stop interrupted)')
     thorough = ctx.tier == 'thorough'
@@ -895,6 +1118,8 @@ def run(ctx):
             batch.append((case, ev, err))
     check_cases(ctx, res, [b for b in batch if not b[0].get('split')], 'corpus')
     check_cases(ctx, res, [b for b in batch if b[0].get('split')], 'corpus', compare=False)
+    # ---------- glue: get_status / statusMap, isBusy ----------
+    check_glue(ctx, res)
     # ---------- exhaustive ----------
     depth = (7 if thorough else 6) + (1 if ctx.escalated else 0)
     for hs in (False, True):
@@ -905,6 +1130,23 @@ def run(ctx):
                 check_cases(ctx, res, batch, 'exhaustive')
                 batch = []
         check_cases(ctx, res, batch, 'exhaustive')
+    # the module with the alphabet in which a status that is not busy is declared (state and override), one level less deep
+    batch = [(case, ev, err) for case, ev, err in exhaustive(True, depth - 1, warn=True)]
+    check_cases(ctx, res, batch, 'exhaustive-warn')
+    # ---------- catalogue: interruptions x cleanups ----------
+    batch = []
+    for _ in range(1 if not thorough else 5):
+        for case in cleanup_catalogue(rng):
+            ev, err, _, _ = impl_run(case)
+            batch.append((case, ev, err))
+    check_cases(ctx, res, batch, 'catalogue')
+    # ---------- several runs on one instance ----------
+    batch = []
+    for i in range(ctx.budget(600, 12000)):
+        case = gen_runs(rng, i % 3 != 0)
+        ev, err, _, _ = impl_run(case)
+        batch.append((case, ev, err))
+    check_cases(ctx, res, batch, 'runs')
     # ---------- random ----------
     batch = []
     for i in range(ctx.budget(1500, 30000)):
@@ -924,6 +1166,13 @@ def run(ctx):
 
 def replay(ctx, rp):
     case = rp['case']
+    if 'isbusy' in case:
+        mod = get_classes()['create_module']()
+        table = [[c, bool(mod.isBusy((c, 'x')))] for c in case['isbusy']]
+        a = ctx.driver.batch([rules_req('judge_isbusy', table=table)])[0]
+        print('isBusy :', table)
+        print('judge  :', a)
+        return 1 if a.get('bad') else 0
     events, errors, _, _ = impl_run(case)
     reqs = [judge_req(case, events)]
     if not case.get('split'):
